@@ -1169,6 +1169,7 @@ CMDFLAG = {"only_test": "onlyTest", "implicit_write": "implicitWrite"}
 CMDPTR = {"run": "hasRun", "read": "hasRead", "write": "hasWrite", "test": "hasTest"}
 STEP_CALL = dict(VOID_CALL)
 STEP_CALL["start_processing_format_read_args"] = "startFormatRead D s {f}"
+STEP_CALL["unsolicited_reset_state"] = "unsolicitedResetState s"
 
 
 def _cmd_member(n):
@@ -1210,7 +1211,14 @@ def _terminal(sts):
     return bool(sts) and sts[-1].get("kind") in ("ReturnStmt", "BreakStmt")
 
 
+VOID_FN_MODE = [False]
+
+
 def _check_ret(st):
+    if st.get("kind") == "ReturnStmt" and VOID_FN_MODE[0]:
+        if st.get("inner"):
+            raise Unrecognised("T12: value returned from a void function")
+        return
     if st.get("kind") == "ReturnStmt":
         r = strip(st["inner"][0]).get("referencedDecl", {}).get("name") if st.get("inner") else None
         if r != "CAT_STATUS_BUSY":
@@ -1421,6 +1429,8 @@ def _x(n, env):
         b = strip(e["inner"][0])
         if b.get("kind") == "DeclRefExpr" and b["referencedDecl"]["name"] == "cmd" and e["name"] == "implicit_write":
             return "cmd.implicitWrite", "bool"
+        if b.get("kind") == "DeclRefExpr" and b["referencedDecl"]["name"] == "cmd" and e["name"] == "var_num":
+            return "cmd.varNum", "nat"
         raise Unrecognised("T11: member %s" % (path or e.get("name")))
     if k == "ArraySubscriptExpr":
         base = strip(e["inner"][0])
@@ -1443,6 +1453,11 @@ def _x(n, env):
             return "D.cmdCap", "nat"
         if fn == "strlen" and _is_self_call(e["inner"][1], "get_atcmd_buf"):
             return "strlenOf (region D s .cmd 0)", "nat"
+        if fn == "is_variables_access_possible" and strip(e["inner"][2]).get("referencedDecl", {}).get("name") == "cmd":
+            acc = strip(e["inner"][3]).get("referencedDecl", {}).get("name")
+            m = {"CAT_VAR_ACCESS_WRITE_ONLY": ".wo", "CAT_VAR_ACCESS_READ_ONLY": ".ro"}
+            if acc in m:
+                return "varsAccessible cmd %s" % m[acc], "bool"
         if fn == "is_variables_access_possible" and _member_path(e["inner"][2]) == "cmd":
             acc = strip(e["inner"][3]).get("referencedDecl", {}).get("name")
             m = {"CAT_VAR_ACCESS_WRITE_ONLY": ".wo", "CAT_VAR_ACCESS_READ_ONLY": ".ro"}
@@ -1462,6 +1477,34 @@ def _x(n, env):
             a, _ = _x(e["inner"][0], env)
             b, _ = _x(e["inner"][1], env)
             return "%s %s %s" % (a, op, b), "nat"
+        lm = strip(e["inner"][0])
+        lb = strip(lm["inner"][0]) if lm.get("kind") == "MemberExpr" and lm.get("inner") else {}
+        if op in ("==", "!=") and lm.get("kind") == "MemberExpr" and lb.get("kind") == "DeclRefExpr" and \
+                lb.get("referencedDecl", {}).get("name") == "cmd" and (lm.get("name") in CMDPTR or lm.get("name") == "var"):
+            if _rhs(e["inner"][1], "ptr", [], {}) != "none":
+                raise Unrecognised("T12: pointer compared with something other than NULL")
+            if lm["name"] == "var":
+                return ("cmd.vars.isNone" if op == "==" else "cmd.vars.isSome"), "bool"
+            return ("!cmd.%s" if op == "==" else "cmd.%s") % CMDPTR[lm["name"]], "bool"
+        if op in ("==", "!=") and lm.get("kind") == "CallExpr":
+            fn = strip(lm["inner"][0]).get("referencedDecl", {}).get("name")
+            z = strip(e["inner"][1])
+            if z.get("kind") == "IntegerLiteral" and z.get("value") == "0" and fn in ("print_string_to_buf", "print_response_test"):
+                t = env.fresh()
+                if fn == "print_string_to_buf":
+                    a = strip(lm["inner"][2])
+                    ab = strip(a["inner"][0]) if a.get("kind") == "MemberExpr" else {}
+                    if a.get("kind") == "StringLiteral":
+                        txt = "[%s]" % ", ".join(str(b) for b in json.loads(a["value"]).encode())
+                    elif a.get("name") == "name" and ab.get("kind") == "DeclRefExpr" and ab["referencedDecl"]["name"] == "cmd":
+                        txt = "cmd.name"
+                    else:
+                        raise Unrecognised("T12: print_string_to_buf of an unrecognised text")
+                    env.pre.append("let (s, %s) := printN D s f %s" % (t, txt))
+                else:
+                    env.pre.append("let (s, %s) := printResponseTest D s f" % t)
+                # both return 0 on success; the model's functions return "succeeded"
+                return (t if op == "==" else "!" + t), "bool"
         cmh = _cmd_member(e["inner"][0])
         if op in ("==", "!=") and cmh in CMDPTR:
             if _rhs(e["inner"][1], "ptr", [], {}) != "none":
@@ -1507,6 +1550,25 @@ def _cps(sts, k, ind):
         return "s"
     if kind == "BreakStmt":
         return "s"          # only used inside a switch that is followed by nothing but `return CAT_STATUS_BUSY`
+    if kind == "SwitchStmt" and strip(st["inner"][0]).get("referencedDecl", {}).get("name") == "fsm":
+        arms = {}
+        for labels, stmts in switch_arms(st, None, None):
+            body = [x for x in stmts if not is_noise(x)]
+            for l in labels:
+                if l == "default":
+                    if [x for x in body if x.get("kind") != "BreakStmt"]:
+                        raise Unrecognised("T12: non-empty default arm of switch (fsm)")
+                    continue
+                if l not in FSMARG:
+                    raise Unrecognised("T12: unknown fsm label %s" % l)
+                if body and body[-1].get("kind") == "BreakStmt":
+                    body = body[:-1]
+                if any(x.get("kind") == "BreakStmt" for b in body for x in _walk(b)):
+                    raise Unrecognised("T12: break inside an arm of switch (fsm)")
+                arms[FSMARG[l]] = _cps(body + rest, k, ind + "  ")
+        if set(arms) != {".cmd", ".uns"}:
+            raise Unrecognised("T12: switch (fsm) without both arms")
+        return "(match f with\n%s| .cmd => %s\n%s| .uns => %s)" % (ind, arms[".cmd"], ind, arms[".uns"])
     if kind == "SwitchStmt":
         if _member_path(st["inner"][0]) != "current_char":
             raise Unrecognised("T11: switch on something other than current_char")
@@ -1535,12 +1597,15 @@ def _cps(sts, k, ind):
             fn = strip(i["inner"][0]).get("referencedDecl", {}).get("name") if i.get("kind") == "CallExpr" else None
             if nm == "cmd" and fn == "get_command_by_index" and _member_path(i["inner"][2]) == "index":
                 out.append("let cmd := (cmdByIndex D.groups s.index).getD default")
+            elif nm == "cmd" and fn == "get_command_by_fsm":
+                out.append("let s : St := s.chkUb (s.cmdOf f).isSome")   # the model's ghost check: the pointer is dereferenced below
+                out.append("let cmd := D.cmdD (s.cmdOf f)")
             elif nm == "cmd_state" and fn == "get_cmd_state" and _member_path(i["inner"][2]) == "index":
                 out.append("let (s, cmd_state) := getCmdState D s s.index")
             else:
                 raise Unrecognised("T11: declaration of %s" % nm)
         tail = _cps(rest, k, ind)
-        return "(" + ("\n" + ind).join(out + [tail]) + ")"
+        return "(" + (";\n" + ind).join(out + [tail]) + ")"
     if kind == "IfStmt":
         env = _Env()
         c, _ = _x(st["inner"][0], env)
@@ -1549,60 +1614,63 @@ def _cps(sts, k, ind):
         if _has_return(th) or _has_return(el):
             body = "if %s then %s\n%selse %s" % (c, _cps(th + rest, k, ind + "  "), ind, _cps(el + rest, k, ind + "  "))
         else:
-            body = "let s : St := (if %s then %s\n%s  else %s)\n%s%s" % (c, _cps(th, "s", ind + "  "), ind, _cps(el, "s", ind + "  "), ind,
+            body = "let s : St := (if %s then %s\n%s  else %s);\n%s%s" % (c, _cps(th, "s", ind + "  "), ind, _cps(el, "s", ind + "  "), ind,
                                                                      _cps(rest, k, ind))
-        return "(" + ("\n" + ind).join(env.pre + [body]) + ")"
+        return "(" + (";\n" + ind).join(env.pre + [body]) + ")"
     if e.get("kind") == "BinaryOperator" and e.get("opcode") == "=":
         lhs, rhs = strip(e["inner"][0]), strip(e["inner"][1])
         if lhs.get("kind") == "DeclRefExpr" and lhs["referencedDecl"]["name"] == "cmd_name_len":
             env = _Env()
             v, _ = _x(rhs, env)
-            return "(let cmd_name_len := %s\n%s%s)" % (v, ind, _cps(rest, k, ind))
+            return "(let cmd_name_len := %s;\n%s%s)" % (v, ind, _cps(rest, k, ind))
         if lhs.get("kind") == "ArraySubscriptExpr" and _is_self_call(lhs["inner"][0], "get_atcmd_buf"):
             # get_atcmd_buf(self)[self->length++] = x   /   get_atcmd_buf(self)[self->length] = 0
             i = strip(lhs["inner"][1])
             env = _Env()
             v, _ = _x(rhs, env)
             if i.get("kind") == "UnaryOperator" and i.get("opcode") == "++" and i.get("isPostfix") and _member_path(i["inner"][0]) == "length":
-                return "(let s : St := setB D s .cmd s.length %s\n%slet s : St := { s with length := s.length + 1 }\n%s%s)" % (
+                return "(let s : St := setB D s .cmd s.length %s;\n%slet s : St := { s with length := s.length + 1 };\n%s%s)" % (
                     v, ind, ind, _cps(rest, k, ind))
             if _member_path(i) == "length":
-                return "(let s : St := setB D s .cmd s.length %s\n%s%s)" % (v, ind, _cps(rest, k, ind))
+                return "(let s : St := setB D s .cmd s.length %s;\n%s%s)" % (v, ind, _cps(rest, k, ind))
             raise Unrecognised("T11: store into the command buffer at an unrecognised index")
         path = _member_path(lhs)
-        if path == "var":
+        if path in ("var", "unsolicited_fsm.var"):
             # self->var = &self->cmd->var[self->index]: a cached pointer the model does not keep (it indexes on use)
             return _cps(rest, k, ind)
         if path == "cmd" and rhs.get("kind") == "CallExpr" and \
                 strip(rhs["inner"][0]).get("referencedDecl", {}).get("name") == "get_command_by_index" and _member_path(rhs["inner"][2]) == "index":
-            return "(let s : St := { s with cmd := some s.index }\n%s%s)" % (ind, _cps(rest, k, ind))
+            return "(let s : St := { s with cmd := some s.index };\n%s%s)" % (ind, _cps(rest, k, ind))
         if path == "state" and rhs.get("kind") == "ConditionalOperator":
             env = _Env()
             c, _ = _x(rhs["inner"][0], env)
             a, b = _rhs(rhs["inner"][1], "cstate", [], {}), _rhs(rhs["inner"][2], "cstate", [], {})
-            return "(let s : St := { s with state := if %s then %s else %s }\n%s%s)" % (c, a, b, ind, _cps(rest, k, ind))
+            return "(let s : St := { s with state := if %s then %s else %s };\n%s%s)" % (c, a, b, ind, _cps(rest, k, ind))
         if path in FIELD:
             f, kd = FIELD[path]
-            return "(let s : St := { s with %s := %s }\n%s%s)" % (f, _rhs(rhs, kd, [], {}), ind, _cps(rest, k, ind))
+            return "(let s : St := { s with %s := %s };\n%s%s)" % (f, _rhs(rhs, kd, [], {}), ind, _cps(rest, k, ind))
         raise Unrecognised("T11: assignment")
     if e.get("kind") == "UnaryOperator" and e.get("opcode") == "++":
         path = _member_path(e["inner"][0])
         if path in FIELD and FIELD[path][1] == "nat":
             f = FIELD[path][0]
-            return "(let s : St := { s with %s := s.%s + 1 }\n%s%s)" % (f, f, ind, _cps(rest, k, ind))
+            return "(let s : St := { s with %s := s.%s + 1 };\n%s%s)" % (f, f, ind, _cps(rest, k, ind))
     if e.get("kind") == "CallExpr":
         fn = strip(e["inner"][0]).get("referencedDecl", {}).get("name")
         if fn == "set_cmd_state" and _member_path(e["inner"][2]) == "index":
             v = strip(e["inner"][3])
             if v.get("kind") != "IntegerLiteral":
                 raise Unrecognised("T11: set_cmd_state with a non-constant state")
-            return "(let s : St := setCmdState D s s.index %s\n%s%s)" % (v["value"], ind, _cps(rest, k, ind))
+            return "(let s : St := setCmdState D s s.index %s;\n%s%s)" % (v["value"], ind, _cps(rest, k, ind))
+        args = [strip(a).get("referencedDecl", {}).get("name") for a in e["inner"][1:]]
+        if fn in FSM_CALL and args == ["self", "fsm"]:
+            return "(let s : St := %s;\n%s%s)" % (FSM_CALL[fn], ind, _cps(rest, k, ind))
         if fn in STEP_CALL and "{f}" not in STEP_CALL[fn]:
-            return "(let s : St := %s\n%s%s)" % (STEP_CALL[fn], ind, _cps(rest, k, ind))
+            return "(let s : St := %s;\n%s%s)" % (STEP_CALL[fn], ind, _cps(rest, k, ind))
         if fn in STEP_CALL:
             nm, fsm = _call_of(e)
             if fsm:
-                return "(let s : St := %s\n%s%s)" % (STEP_CALL[fn].replace("{f}", fsm), ind, _cps(rest, k, ind))
+                return "(let s : St := %s;\n%s%s)" % (STEP_CALL[fn].replace("{f}", fsm), ind, _cps(rest, k, ind))
     raise Unrecognised("T11: unrecognised statement (%s)" % kind)
 
 
@@ -1625,6 +1693,29 @@ def t11(ast):
     return defs
 
 
+# ------------------------------------------------------------------------------------ T12
+# void helpers parameterised by the machine (`cat_fsm_type fsm`): `switch (fsm)` becomes a match on the
+# model's `Fsm`; `print_string_to_buf(...) != 0` / `print_response_test(...) == 0` bind the model's
+# printers; `get_command_by_fsm` binds the selected command (with the model's ghost NULL check).
+
+FSM_CALL = {"reset_position": "s.setPos f 0", "end_processing_with_error": "endError D s f", "end_processing_with_ok": "endOk D s f"}
+T12_FUNCS = ["end_processing_with_ok", "end_processing_with_error", "reset_position", "start_processing_format_read_args",
+             "start_processing_format_test_args"]
+
+
+def t12(ast):
+    defs = []
+    VOID_FN_MODE[0] = True
+    try:
+        for name in T12_FUNCS:
+            _, body = find_fn(ast, name)
+            sts = [x for x in body.get("inner", []) if not is_noise(x)]
+            defs.append("/-- `%s` of src/cat.c -/\ndef %s (D : Desc) (s : St) (f : Fsm) : St :=\n  %s" % (name, name, _cps(sts, "s", "    ")))
+    finally:
+        VOID_FN_MODE[0] = False
+    return defs
+
+
 def t9(ast):
     defs = []
     for name in STEPS:
@@ -1638,7 +1729,8 @@ def t9(ast):
     for w in WRITERS:
         defs.append(_writer(ast, *w))
     defs += t11(ast)
-    hdr = ("/-\n  GENERATED by tools/translate.py from small step functions of src/cat.c (T9, T10, T11). Do not edit.\n"
+    defs += t12(ast)
+    hdr = ("/-\n  GENERATED by tools/translate.py from small step functions of src/cat.c (T9 - T12). Do not edit.\n"
            "  `Proofs/Steps.lean` proves the model's functions equal to these.\n-/\n"
            "import CatVerif.Model.Fsm\nnamespace Cat.Gen\nopen Cat St\nset_option linter.unusedVariables false\n\n")
     return hdr + "\n\n".join(defs) + "\n\nend Cat.Gen\n"
